@@ -115,6 +115,7 @@ Inductive ev :=
 | EReq (a : N) (c : cause)           (* stop/fail/kill request issued (echo) *)
 | ENotify (a : N) (c : option cause)
 | EValDrop (a : N)
+| EOrphNew (a : N) | EOrphDrop (a : N)   (* a value returned by an init step that also asked to stop/fail: never installed *)
 | ERetNew (r : N) | ERetTo (r uid : N) (some : bool) | ERetSent (r v : N) | ERet (r : N) (m : option N)
 | EFwdNew (f : N) | EFwd (f v : N) | EFwdFree (f : N)
 | ETokNew (t : N) | ETokDrop (t : N)
@@ -123,6 +124,8 @@ Inductive ev :=
 | ESlabAdd (p a : N) | ESlabLen (p : N) (n : Z)
 | ESetLogger (lvls : list Z) | ESetFilter (lvls : list Z)
 | ELogReq (id lvl : Z) | ELogCheck (lvl : Z) (b : bool)
+| ETimerVar (k : tk) (v uid : N)      (* timer variable v of kind k now refers to the timer holding closure uid *)
+| ETimerDel (k : tk) (v : N) (b : bool)   (* timer_*_del through variable v returned b *)
 | EBool (tag : N) (b : bool)
 | ENum (tag : N) (n : Z)
 | ELeak (kind id : N)
@@ -136,7 +139,10 @@ Definition TAG_SLABLEN : N := 7. Definition TAG_NOW : N := 8.   Definition TAG_S
 (* codes of EModel *)
 Definition M_FREE_ACTOR : N := 1. Definition M_AMBIG : N := 2. Definition M_UAF : N := 3.
 Definition M_LIMBO : N := 4.      Definition M_PREPHELD : N := 5. Definition M_DRAINLEFT : N := 6.
-Definition M_CHILDCYCLE : N := 7.
+Definition M_CHILDCYCLE : N := 7. Definition M_DRAINSHORT : N := 8.
+(* class DropDepth99 of known finding F4 is about chains of >= 99 closures: the bound of the CLASS is this
+   literal, not the translated constant of the code *)
+Definition F4_CLASS_ROUNDS : Z := 99.
 (* leak kinds *)
 Definition LK_CLO : N := 0. Definition LK_VAL : N := 1. Definition LK_RET : N := 2.
-Definition LK_NOTIFY : N := 3. Definition LK_TOK : N := 4. Definition LK_FWD : N := 5.
+Definition LK_NOTIFY : N := 3. Definition LK_TOK : N := 4. Definition LK_FWD : N := 5. Definition LK_ORPH : N := 6.
